@@ -490,7 +490,11 @@ def showDec {H : Type} (K : Kind H) (bisect : Bool) (d : Dec) (ab : Option (Repl
       | some (a, b) => fl (clamp01 (ratioFromStrings K a b))
       | none => "noreplica"
     else "x"
-  let base := s!"{d.left} {if d.evaluated then "V" else "E"} {showBool d.accepted} {p1} {p2}"
+  -- exact zero test: a pair whose ratio is 0 must be rejected even when the uniform draw is 0.0
+  -- (`p_swap > u`, not `>=`); `?` (tie) if the rational is positive but could underflow in f64
+  let z := if !bisect then "x" else if d.p ≤ 0 then "Z"
+    else if d.p < 1 / (10 : Rat) ^ 200 then "?" else "N"
+  let base := s!"{d.left} {if d.evaluated then "V" else "E"} {showBool d.accepted} {p1} {p2} {z}"
   if d.evaluated then s!"{base} {fl d.relB} {flInv d.relB} {fl d.relA} {flInv d.relA}" else base
 
 def minMargin (ds : List Dec) : Rat :=
